@@ -1,6 +1,7 @@
 package main
 
 import (
+	"fmt"
 	"strings"
 	"go/token"
 	"go/types"
@@ -17,6 +18,8 @@ type globalInfo struct {
 	addrEscapes       bool
 	initVal           ssa.Value // value stored by init, if there is exactly one store
 	initStores        int
+	fieldInit         map[int]ssa.Value // struct global: field -> the one value init stores into it
+	fieldUnsafe       bool              // a field address is used for anything but those init stores / loads
 }
 
 func (E *Engine) scanGlobals() {
@@ -57,17 +60,78 @@ func (E *Engine) scanGlobals() {
 						}
 						gi.addrEscapes = true
 					case *ssa.DebugRef:
-					case *ssa.IndexAddr, *ssa.FieldAddr:
-						// element/field address: reads are fine, writes through it are
+					case *ssa.FieldAddr:
+						gi.addrEscapes = true
+						// field-wise initialisation of a struct variable by init
+						if x.X == g {
+							if refs := x.Referrers(); refs != nil {
+								for _, r := range *refs {
+									switch y := r.(type) {
+									case *ssa.Store:
+										if y.Addr == x && isInit && fn.Pkg == g.Pkg {
+											if gi.fieldInit == nil {
+												gi.fieldInit = map[int]ssa.Value{}
+											}
+											if _, dup := gi.fieldInit[x.Field]; dup {
+												gi.fieldUnsafe = true
+											}
+											gi.fieldInit[x.Field] = y.Val
+										} else {
+											gi.fieldUnsafe = true
+										}
+									case *ssa.UnOp:
+										if y.Op != token.MUL {
+											gi.fieldUnsafe = true
+										}
+									case *ssa.DebugRef:
+									default:
+										gi.fieldUnsafe = true
+									}
+								}
+							}
+						} else {
+							gi.fieldUnsafe = true
+						}
+					case *ssa.IndexAddr:
+						// element address: reads are fine, writes through it are
 						// found by the frame scan; treat as escaping for constness
 						gi.addrEscapes = true
+						gi.fieldUnsafe = true
 					default:
 						gi.addrEscapes = true
+						gi.fieldUnsafe = true
 					}
 				}
 			}
 		}
 	}
+}
+
+// globalFieldFacts: for a struct variable that only its package initialiser writes, field
+// by field with constants, the facts "field = constant" about the loaded value.
+func (e *FnEnc) globalFieldFacts(g *ssa.Global, term string) []string {
+	gi := e.E.globals[g]
+	if gi == nil || gi.storesOutsideInit > 0 || gi.initStores > 0 || gi.fieldUnsafe || len(gi.fieldInit) == 0 {
+		return nil
+	}
+	st, ok := g.Type().(*types.Pointer).Elem().Underlying().(*types.Struct)
+	if !ok {
+		return nil
+	}
+	sortS := e.R.sortOf(g.Type().(*types.Pointer).Elem())
+	var out []string
+	for i := 0; i < st.NumFields(); i++ {
+		v, ok := gi.fieldInit[i]
+		if !ok {
+			continue
+		}
+		c, ok := e.constEval(v, 0)
+		if !ok {
+			continue
+		}
+		out = append(out, fmt.Sprintf("(= (%s.%s %s) %s)", sortS, st.Field(i).Name(), term, c))
+	}
+	return out
 }
 
 // globalConstTerm returns the SMT term of a global that is a constant scalar.
